@@ -77,6 +77,7 @@ pub struct LayoutStats {
     pub non_data_last: bool,
     pub section_residues: Vec<u64>,
     pub cut_offsets_in_value: Vec<u64>,
+    pub all_empty_data_packets: u64,
     pub max_packet_len: u64,
     pub max_stream_len_in_packet: u64,
 }
@@ -254,7 +255,10 @@ fn cv_section(pc: &PcRead, layout: &Layout, r: &mut Rng, stats: &mut LayoutStats
                     take[i] = want.min(room).min(65535);
                     room -= take[i];
                 }
-                if take.iter().sum::<usize>() == 0 {
+                if take.iter().sum::<usize>() == 0 && !packets.is_empty() && r.chance(1, 3) && left > 2 {
+                    // a data packet whose streams are all empty (legal; carries no value)
+                    stats.all_empty_data_packets += 1;
+                } else if take.iter().sum::<usize>() == 0 {
                     // progress: give one stream something
                     let cands: Vec<usize> = (0..n).filter(|i| streams[*i].len() > cursors[*i]).collect();
                     let i = cands[r.usize_below(cands.len())];
